@@ -589,8 +589,12 @@ func (t *diskTrack) writeBuffered(force bool) error {
 		}
 
 		if valid(t.origin) && int32(ts-value(t.origin)) < 0 {
-			if value(t.origin)-ts < 0x10000 {
-				// late packet before origin, drop
+			if value(t.origin)-ts < 0x40000000 {
+				// before the origin, drop.  This is not
+				// just a late packet: the origin is set
+				// when a keyframe arrives, but frames come
+				// out of the sample builder later, possibly
+				// seconds later after a loss.
 				continue
 			}
 			// we've gone around 2^31 timestamps, force
